@@ -476,6 +476,7 @@ func registerCkpt() {
 			Systems  []SysCfg `json:"systems"`
 			Random   int      `json:"random"`
 			Mem      int      `json:"mem"`
+			Collide  int      `json:"collide"`
 			MaxCuts  int      `json:"max_cuts"`
 			TraceOut string   `json:"trace_out"` // prefix+suffix traces for TickTrace.tla
 		}
@@ -489,6 +490,9 @@ func registerCkpt() {
 		}
 		for i := 0; i < in.Mem; i++ {
 			all = append(all, memSystem(rng))
+		}
+		for i := 0; i < in.Collide; i++ {
+			all = append(all, collisionSystem(rng))
 		}
 		dir, _ := os.MkdirTemp("", "ckpt-")
 		defer os.RemoveAll(dir)
